@@ -1,12 +1,1403 @@
-//! C08 — not built yet.
-use crate::runner::{Outcome, Summary};
-use crate::Ctx;
-use serde_json::Value;
+//! C08-C11 — the `Program` builder against spec/ProgramModel.tla.  This file holds the shared binding
+//! (abstraction function, the real two-register machine, projections, property predicates, the
+//! driver) and the C08 verdicts; c09.rs / c10.rs / c11.rs only select their mode.
+//!
+//! A *history* is `{"sym":[instruction records], "ops":[operation records]}` (TLC cases embed the
+//! instruction records in the operations instead; both forms are accepted).  An instruction record is
+//! `{id, k, key, text, qs}` as in ProgramModel.tla; the harness parses `text`, and computes k / key / qs
+//! from the parsed value itself (never through `Instruction::get_qubits`), so the model's view of the
+//! alphabet is cross-checked and the oracles stay independent of the code under test.
+//!
+//! replay (spec -> code): every operation of a TLC case is executed on two real `Program` registers and
+//!   the projected post-state compared with the model's; a difference is classified by the Rust
+//!   predicate of the *property of the mode* (violation iff the property's own statement fails on the
+//!   real observables, otherwise divergence).
+//! drive (code -> spec): seeded random histories over a larger alphabet, recorded as
+//!   reset / mutation / Obs / ObsConcat events for spec/trace/ProgramModelTrace.tla.
+//!
+//! Internal protocol: mode `<ID>.child` runs a history in a *fresh process* and returns the final
+//! `to_quil()` texts of both registers in `Outcome.divergences` (C08: "in the same process or another").
 
-pub fn replay(_ctx: &Ctx, _case: &Value) -> Outcome {
-    panic!("C08: replay not implemented")
+use crate::runner::{Outcome, Summary, Violation};
+use crate::util;
+use crate::Ctx;
+use quil_rs::instruction::{
+    DefaultHandler, FrameIdentifier, Instruction, InstructionHandler, MemoryReference, PragmaArgument, Qubit, Target,
+};
+use quil_rs::quil::Quil;
+use quil_rs::Program;
+use rand::seq::SliceRandom;
+use rand::Rng;
+use serde_json::{json, Value};
+use std::cell::RefCell;
+use std::collections::{BTreeSet, HashMap, HashSet};
+use std::io::{BufRead, BufReader, Write};
+
+pub const KF16: &str = "clone-without-body-drops-calibration-qubits";
+
+pub const TABLES: [&str; 8] =
+    ["Extern", "Declare", "DefFrame", "DefWaveform", "DefCal", "DefCalMeasure", "DefGate", "DefCircuit"];
+
+// ------------------------------------------------------------------------------------ abstraction
+
+/// canonical string of a qubit (set element)
+pub fn qcanon(q: &Qubit) -> String {
+    match q {
+        Qubit::Fixed(n) => format!("fixed:{n}"),
+        Qubit::Variable(s) => format!("var:{s}"),
+        Qubit::Placeholder(p) => format!("ph:{p:?}"),
+    }
 }
 
-pub fn drive(_ctx: &Ctx) -> Summary {
-    panic!("C08: drive not implemented")
+pub fn qcanon_of_abs(v: &Value) -> String {
+    match v["t"].as_str() {
+        Some("fixed") => format!("fixed:{}", v["n"]),
+        Some("var") => format!("var:{}", v["s"].as_str().unwrap_or("?")),
+        _ => format!("ph:{}", v["id"]),
+    }
+}
+
+pub fn qabs_of_canon(c: &str) -> Value {
+    let (t, rest) = c.split_once(':').unwrap_or(("ph", c));
+    match t {
+        "fixed" => json!({"t": "fixed", "n": rest.parse::<u64>().unwrap_or(0)}),
+        "var" => json!({"t": "var", "s": rest}),
+        _ => json!({"t": "ph", "id": rest}),
+    }
+}
+
+pub fn kind_of(i: &Instruction) -> &'static str {
+    match i {
+        Instruction::Pragma(p) if p.name == "EXTERN" => "Extern",
+        Instruction::Declaration(_) => "Declare",
+        Instruction::FrameDefinition(_) => "DefFrame",
+        Instruction::WaveformDefinition(_) => "DefWaveform",
+        Instruction::CalibrationDefinition(_) => "DefCal",
+        Instruction::MeasureCalibrationDefinition(_) => "DefCalMeasure",
+        Instruction::GateDefinition(_) => "DefGate",
+        Instruction::CircuitDefinition(_) => "DefCircuit",
+        _ => "Body",
+    }
+}
+
+pub fn key_of(i: &Instruction) -> String {
+    match i {
+        Instruction::Pragma(p) if p.name == "EXTERN" => match p.arguments.first() {
+            Some(PragmaArgument::Identifier(n)) => n.clone(),
+            _ => "<none>".into(),
+        },
+        Instruction::Declaration(d) => d.name.clone(),
+        Instruction::FrameDefinition(f) => f.identifier.to_quil_or_debug(),
+        Instruction::WaveformDefinition(w) => w.name.clone(),
+        Instruction::CalibrationDefinition(c) => c.identifier.to_quil_or_debug(),
+        Instruction::MeasureCalibrationDefinition(c) => c.identifier.to_quil_or_debug(),
+        Instruction::GateDefinition(g) => g.name.clone(),
+        Instruction::CircuitDefinition(c) => c.name.clone(),
+        _ => "-".into(),
+    }
+}
+
+fn frame_qubits(f: &FrameIdentifier, out: &mut Vec<Qubit>) {
+    out.extend(f.qubits.iter().cloned());
+}
+
+/// Qubits an instruction mentions.  `sure`: positions where "mentions a qubit" is unambiguous (DESIGN §6
+/// C10: gates, measurements, RESET q, DELAY, FENCE, PULSE/CAPTURE/RAW-CAPTURE, calibration definitions =
+/// identifier qubits + body qubits).  `arguable`: frame operands of SET-*/SHIFT-*/SWAP-PHASES, DEFFRAME
+/// identifiers, circuit bodies — the statement does not settle them, so they only widen the accepted band.
+pub fn mentioned_qubits(i: &Instruction, sure: &mut Vec<Qubit>, arguable: &mut Vec<Qubit>) {
+    match i {
+        Instruction::Gate(g) => sure.extend(g.qubits.iter().cloned()),
+        Instruction::Measurement(m) => sure.push(m.qubit.clone()),
+        Instruction::Reset(r) => sure.extend(r.qubit.iter().cloned()),
+        Instruction::Delay(d) => sure.extend(d.qubits.iter().cloned()),
+        Instruction::Fence(f) => sure.extend(f.qubits.iter().cloned()),
+        Instruction::Pulse(p) => frame_qubits(&p.frame, sure),
+        Instruction::Capture(c) => frame_qubits(&c.frame, sure),
+        Instruction::RawCapture(c) => frame_qubits(&c.frame, sure),
+        Instruction::CalibrationDefinition(c) => {
+            sure.extend(c.identifier.qubits.iter().cloned());
+            for b in &c.instructions {
+                mentioned_qubits(b, sure, arguable);
+            }
+        }
+        Instruction::MeasureCalibrationDefinition(c) => {
+            sure.push(c.identifier.qubit.clone());
+            for b in &c.instructions {
+                mentioned_qubits(b, sure, arguable);
+            }
+        }
+        Instruction::FrameDefinition(f) => frame_qubits(&f.identifier, arguable),
+        Instruction::SetFrequency(x) => frame_qubits(&x.frame, arguable),
+        Instruction::SetPhase(x) => frame_qubits(&x.frame, arguable),
+        Instruction::SetScale(x) => frame_qubits(&x.frame, arguable),
+        Instruction::ShiftFrequency(x) => frame_qubits(&x.frame, arguable),
+        Instruction::ShiftPhase(x) => frame_qubits(&x.frame, arguable),
+        Instruction::SwapPhases(x) => {
+            frame_qubits(&x.frame_1, arguable);
+            frame_qubits(&x.frame_2, arguable);
+        }
+        Instruction::CircuitDefinition(c) => {
+            let mut s = vec![];
+            for b in &c.instructions {
+                mentioned_qubits(b, &mut s, arguable);
+            }
+            arguable.extend(s);
+        }
+        _ => {}
+    }
+}
+
+fn qset(v: &[Qubit]) -> BTreeSet<String> {
+    v.iter().map(qcanon).collect()
+}
+
+/// (qs of the model = all qubits at sure positions, lower bound = the non-variable ones, upper bound =
+/// sure + arguable positions)
+pub fn qubit_band(is: &[Instruction]) -> (BTreeSet<String>, BTreeSet<String>, BTreeSet<String>) {
+    let (mut s, mut a) = (vec![], vec![]);
+    for i in is {
+        mentioned_qubits(i, &mut s, &mut a);
+    }
+    let model = qset(&s);
+    let lower: BTreeSet<String> = s.iter().filter(|q| !matches!(q, Qubit::Variable(_))).map(qcanon).collect();
+    let mut upper = model.clone();
+    upper.extend(qset(&a));
+    (model, lower, upper)
+}
+
+pub struct SymRec {
+    pub id: String,
+    pub k: &'static str,
+    pub key: String,
+    pub instr: Instruction,
+    pub canon: String,
+    pub qs: BTreeSet<String>,
+}
+
+impl SymRec {
+    pub fn abs(&self) -> Value {
+        json!({"id": self.id, "k": self.k, "key": self.key, "text": self.canon,
+               "qs": self.qs.iter().map(|c| qabs_of_canon(c)).collect::<Vec<_>>()})
+    }
+}
+
+/// Symbol table of a history: instruction identity is the canonical (printed) text of the real value.
+#[derive(Default)]
+pub struct Sym {
+    pub recs: HashMap<String, SymRec>,
+    pub by_text: HashMap<String, String>,
+    pub order: Vec<String>,
+    fresh: usize,
+}
+
+impl Sym {
+    pub fn intern_instr(&mut self, id: Option<&str>, instr: Instruction) -> String {
+        let canon = instr.to_quil_or_debug();
+        if let Some(have) = self.by_text.get(&canon) {
+            return have.clone();
+        }
+        let id = match id {
+            Some(s) => s.to_string(),
+            None => {
+                self.fresh += 1;
+                format!("s{}", self.fresh)
+            }
+        };
+        let (model, _, _) = qubit_band(std::slice::from_ref(&instr));
+        let rec = SymRec { id: id.clone(), k: kind_of(&instr), key: key_of(&instr), instr, canon: canon.clone(), qs: model };
+        self.by_text.insert(canon, id.clone());
+        self.recs.insert(id.clone(), rec);
+        self.order.push(id.clone());
+        id
+    }
+
+    /// An instruction record of the model: parse its text and cross-check the model's view of it.
+    pub fn intern_abs(&mut self, v: &Value, o: &mut Outcome) -> String {
+        let id = util::s(v, "id");
+        if self.recs.contains_key(&id) {
+            return id;
+        }
+        let instr = util::instr(&util::s(v, "text"));
+        let got = self.intern_instr(Some(&id), instr);
+        let rec = &self.recs[&got];
+        let want_qs: BTreeSet<String> = util::arr(v, "qs").iter().map(qcanon_of_abs).collect();
+        if got != id || rec.k != util::s(v, "k") || rec.key != util::s(v, "key") || rec.qs != want_qs || rec.canon != util::s(v, "text") {
+            o.diverge(format!(
+                "alphabet: the model's view of {} differs from the parsed instruction: id {} k {} key {:?} qs {:?} text {:?}",
+                v, got, rec.k, rec.key, rec.qs, rec.canon
+            ));
+        }
+        got
+    }
+
+    /// an instruction argument of an operation: a symbol id, or an embedded record
+    pub fn resolve(&mut self, v: &Value, o: &mut Outcome) -> String {
+        match v {
+            Value::String(s) => {
+                if !self.recs.contains_key(s) {
+                    panic!("unknown symbol {s}");
+                }
+                s.clone()
+            }
+            other => self.intern_abs(other, o),
+        }
+    }
+
+    pub fn resolve_seq(&mut self, v: &Value, o: &mut Outcome) -> Vec<String> {
+        v.as_array().map(|a| a.iter().map(|x| self.resolve(x, o)).collect()).unwrap_or_default()
+    }
+
+    pub fn instr(&self, id: &str) -> Instruction {
+        self.recs[id].instr.clone()
+    }
+
+    /// id of a real instruction (interning it if the history has not seen it yet)
+    pub fn id_of(&mut self, i: &Instruction) -> String {
+        self.intern_instr(None, i.clone())
+    }
+
+    pub fn ids_of(&mut self, is: &[Instruction]) -> Vec<String> {
+        is.iter().map(|i| self.id_of(i)).collect()
+    }
+
+    pub fn sym_json(&self) -> Vec<Value> {
+        self.order.iter().map(|id| self.recs[id].abs()).collect()
+    }
+}
+
+// ---------------------------------------------------------------------------------- real machine
+
+#[derive(Clone, Debug, PartialEq)]
+pub struct Proj {
+    pub listing: Vec<String>,
+    pub into: Vec<String>,
+    pub used: BTreeSet<String>,
+    pub text: Option<String>,
+    pub len: usize,
+}
+
+pub fn project(p: &Program, sym: &mut Sym) -> Proj {
+    Proj {
+        listing: sym.ids_of(&p.to_instructions()),
+        into: sym.ids_of(&p.clone().into_instructions()),
+        used: p.get_used_qubits().iter().map(qcanon).collect(),
+        text: p.to_quil().ok(),
+        len: p.len(),
+    }
+}
+
+pub fn used_json(u: &BTreeSet<String>) -> Value {
+    Value::Array(u.iter().map(|c| qabs_of_canon(c)).collect())
+}
+
+fn ri(r: &str) -> usize {
+    match r {
+        "A" => 0,
+        "B" => 1,
+        other => panic!("unknown register {other}"),
+    }
+}
+const RN: [&str; 2] = ["A", "B"];
+
+/// Two real `Program` registers plus the ghost state the Rust predicates need (mirrors the ghost fields
+/// of ProgramModel.tla: log, excl).
+#[derive(Clone, Default)]
+pub struct Machine {
+    pub p: [Program; 2],
+    /// ids of every instruction that flowed into the register, in order
+    pub log: [Vec<String>; 2],
+    /// the value went through clone_without_body_instructions and its cache was not rebuilt since
+    pub taint: [bool; 2],
+    /// the value is the concatenation of a pair on which C10 and C11 pull apart (DESIGN §6 C11)
+    pub pull: [bool; 2],
+    pub opaque: [bool; 2],
+}
+
+pub struct StepInfo {
+    pub ev: String,
+    pub dst: usize,
+    /// operands (a, b) of a concatenation, before the step
+    pub concat: Option<(Program, Program)>,
+    pub pull_apart: bool,
+    /// the step failed in the real code (result register left unchanged)
+    pub err: Option<String>,
+    /// name of a supplied-listing operation
+    pub name: Option<String>,
+}
+
+fn is_cal_kind(k: &str) -> bool {
+    k == "DefCal" || k == "DefCalMeasure"
+}
+
+/// DESIGN §6 C11 "where C10 and C11 pull apart", on real values
+pub fn pull_apart(a: &Program, b: &Program) -> bool {
+    let bi = b.to_instructions();
+    a.to_instructions().iter().filter(|i| is_cal_kind(kind_of(i))).any(|x| {
+        bi.iter().filter(|j| kind_of(j) == kind_of(x) && key_of(j) == key_of(x)).any(|y| {
+            let (qx, _, _) = qubit_band(std::slice::from_ref(x));
+            let (qy, _, _) = qubit_band(std::slice::from_ref(y));
+            !qx.is_subset(&qy)
+        })
+    })
+}
+
+fn def_ids(log: &[String], sym: &Sym) -> Vec<String> {
+    log.iter().filter(|id| sym.recs[*id].k != "Body").cloned().collect()
+}
+
+impl Machine {
+    /// Execute one operation record on the real registers.
+    pub fn apply(&mut self, op: &Value, sym: &mut Sym, o: &mut Outcome) -> StepInfo {
+        let ev = util::s(op, "ev");
+        let dst = ri(&util::s(op, "dst"));
+        let mut info = StepInfo { ev: ev.clone(), dst, concat: None, pull_apart: false, err: None, name: None };
+        let reg = |k: &str| ri(&util::s(op, k));
+        match ev.as_str() {
+            "New" => {
+                self.p[dst] = Program::new();
+                self.set_ghost(dst, vec![], false, false);
+            }
+            "Add" => {
+                let id = sym.resolve(&op["i"], o);
+                self.add_one(dst, &id, sym);
+            }
+            "AddMany" => {
+                let ids = sym.resolve_seq(&op["is"], o);
+                // the ghost follows instruction by instruction; the real call is add_instructions
+                let instrs: Vec<Instruction> = ids.iter().map(|id| sym.instr(id)).collect();
+                let mut shadow = self.clone();
+                for id in &ids {
+                    shadow.add_one(dst, id, sym);
+                }
+                self.p[dst].add_instructions(instrs);
+                self.log[dst] = shadow.log[dst].clone();
+                self.taint[dst] = shadow.taint[dst];
+                self.pull[dst] = shadow.pull[dst];
+            }
+            "FromInstructions" => {
+                let ids = sym.resolve_seq(&op["is"], o);
+                self.p[dst] = Program::from_instructions(ids.iter().map(|id| sym.instr(id)).collect());
+                self.set_ghost(dst, ids, false, false);
+            }
+            "Concat" | "AddAssign" => {
+                let (a, b) = if ev == "Concat" { (reg("a"), reg("b")) } else { (dst, reg("b")) };
+                let (pa, pb) = (self.p[a].clone(), self.p[b].clone());
+                info.pull_apart = pull_apart(&pa, &pb);
+                if ev == "Concat" {
+                    self.p[dst] = pa.clone() + pb.clone();
+                } else {
+                    self.p[dst] += pb.clone();
+                }
+                let mut log = self.log[a].clone();
+                log.extend(self.log[b].iter().cloned());
+                let (t, pl) = (self.taint[a] || self.taint[b], self.pull[a] || self.pull[b] || info.pull_apart);
+                self.set_ghost(dst, log, t, pl);
+                info.concat = Some((pa, pb));
+            }
+            "Clone" => {
+                let a = reg("a");
+                if op.get("via").and_then(|v| v.as_str()) == Some("wrap_in_loop") {
+                    self.p[dst] = self.p[a].wrap_in_loop(loop_ref(), loop_target(), 1);
+                } else {
+                    self.p[dst] = self.p[a].clone();
+                }
+                let (l, t, pl) = (self.log[a].clone(), self.taint[a], self.pull[a]);
+                self.set_ghost(dst, l, t, pl);
+            }
+            "CloneWithoutBody" => {
+                let a = reg("a");
+                if op.get("via").and_then(|v| v.as_str()) == Some("wrap_in_loop") {
+                    self.p[dst] = self.p[a].wrap_in_loop(loop_ref(), loop_target(), 0);
+                } else {
+                    self.p[dst] = self.p[a].clone_without_body_instructions();
+                }
+                let l = def_ids(&self.log[a], sym);
+                self.set_ghost(dst, l, true, false);
+            }
+            "Resolve" => {
+                self.p[dst].resolve_placeholders();
+                let mut l = def_ids(&self.log[dst], sym);
+                let body: Vec<Instruction> = self.p[dst].body_instructions().cloned().collect();
+                l.extend(sym.ids_of(&body));
+                self.set_ghost(dst, l, false, false);
+            }
+            "Filter" => {
+                let a = reg("a");
+                let drop: HashSet<String> =
+                    util::arr(op, "drop").iter().map(|x| x.as_str().unwrap_or("").to_string()).collect();
+                self.p[dst] = self.p[a].filter_instructions(|i| !drop.contains(kind_of(i)));
+                let l = sym.ids_of(&self.p[dst].to_instructions());
+                self.set_ghost(dst, l, false, false);
+            }
+            "Supplied" | "Opaque" => {
+                let a = reg("a");
+                let name = util::s(op, "name");
+                info.name = Some(name.clone());
+                let res: Result<Program, String> = match name.as_str() {
+                    "ExpandCalibrations" => self.p[a].expand_calibrations().map_err(|e| e.to_string()),
+                    "Simplify" => self.p[a].simplify(&DefaultHandler).map_err(|e| e.to_string()),
+                    "WrapInLoop" => {
+                        let n = op.get("n").and_then(|x| x.as_u64()).unwrap_or(2).max(2) as u32;
+                        Ok(self.p[a].wrap_in_loop(loop_ref(), loop_target(), n))
+                    }
+                    "ExpandDefGateSequences" => {
+                        self.p[a].clone().expand_defgate_sequences(|_| true).map_err(|e| e.to_string())
+                    }
+                    other => panic!("unknown supplied operation {other}"),
+                };
+                match res {
+                    Ok(p) => {
+                        self.p[dst] = p;
+                        let l = sym.ids_of(&self.p[dst].to_instructions());
+                        let taint = name != "ExpandDefGateSequences";
+                        self.set_ghost(dst, l, taint, false);
+                        self.opaque[dst] = ev == "Opaque";
+                    }
+                    Err(e) => {
+                        info.err = Some(e);
+                        if ev == "Opaque" {
+                            self.p[dst] = Program::new();
+                            self.set_ghost(dst, vec![], false, false);
+                            self.opaque[dst] = true;
+                        }
+                    }
+                }
+            }
+            other => panic!("unknown operation {other}"),
+        }
+        info
+    }
+
+    fn set_ghost(&mut self, r: usize, log: Vec<String>, taint: bool, pull: bool) {
+        self.log[r] = log;
+        self.taint[r] = taint;
+        self.pull[r] = pull;
+        self.opaque[r] = false;
+    }
+
+    fn add_one(&mut self, dst: usize, id: &str, sym: &Sym) {
+        let rec = &sym.recs[id];
+        // a calibration with an existing signature is replaced: the code rebuilds the cache
+        let replaced_cal = is_cal_kind(rec.k)
+            && self.p[dst].to_instructions().iter().any(|j| kind_of(j) == rec.k && key_of(j) == rec.key);
+        self.p[dst].add_instruction(rec.instr.clone());
+        self.log[dst].push(id.to_string());
+        if replaced_cal {
+            self.taint[dst] = false;
+            self.pull[dst] = false;
+        }
+    }
+}
+
+fn loop_ref() -> MemoryReference {
+    MemoryReference { name: "loopn".into(), index: 0 }
+}
+fn loop_target() -> Target {
+    Target::Fixed("loopstart".into())
+}
+
+// ----------------------------------------------------------------------------- property predicates
+
+fn first_keys(log: &[String], t: &str, sym: &Sym) -> Vec<String> {
+    let mut seen = HashSet::new();
+    let mut out = vec![];
+    for id in log {
+        let r = &sym.recs[id];
+        if r.k == t && seen.insert(r.key.clone()) {
+            out.push(r.key.clone());
+        }
+    }
+    out
+}
+
+/// C08: "within each definition kind, output follows the order in which each definition was first added,
+/// and a redefinition with the same key replaces the earlier one in place" (last value, first position)
+pub fn order_failures(listing: &[String], log: &[String], sym: &Sym) -> Vec<String> {
+    let mut fails = vec![];
+    for t in TABLES {
+        let got: Vec<&SymRec> = listing.iter().map(|id| &sym.recs[id]).filter(|r| r.k == t).collect();
+        let got_keys: Vec<String> = got.iter().map(|r| r.key.clone()).collect();
+        let want_keys = first_keys(log, t, sym);
+        if got_keys != want_keys {
+            fails.push(format!("{t}: keys listed as {got_keys:?}, first-insertion order is {want_keys:?}"));
+            continue;
+        }
+        for r in got {
+            let last = log.iter().rev().map(|id| &sym.recs[id]).find(|x| x.k == t && x.key == r.key);
+            if last.map(|x| x.id.as_str()) != Some(r.id.as_str()) {
+                fails.push(format!("{t} {:?}: holds {} but the last definition added was {:?}", r.key, r.id, last.map(|x| &x.id)));
+            }
+        }
+    }
+    fails
+}
+
+/// C09: "the body keeps the order in which instructions were added, and each keyed definition keeps only
+/// its last value"
+pub fn body_and_last_value_failures(listing: &[String], log: &[String], sym: &Sym) -> Vec<String> {
+    let mut fails = vec![];
+    let body: Vec<&String> = listing.iter().filter(|id| sym.recs[*id].k == "Body").collect();
+    let want: Vec<&String> = log.iter().filter(|id| sym.recs[*id].k == "Body").collect();
+    if body != want {
+        fails.push(format!("body listed as {body:?}, instructions were added as {want:?}"));
+    }
+    for t in TABLES {
+        let mut seen = HashSet::new();
+        for r in listing.iter().map(|id| &sym.recs[id]).filter(|r| r.k == t) {
+            if !seen.insert(r.key.clone()) {
+                fails.push(format!("{t} {:?} listed twice", r.key));
+            }
+            let last = log.iter().rev().map(|id| &sym.recs[id]).find(|x| x.k == t && x.key == r.key);
+            if last.map(|x| x.id.as_str()) != Some(r.id.as_str()) {
+                fails.push(format!("{t} {:?}: holds {} but the last definition added was {:?}", r.key, r.id, last.map(|x| &x.id)));
+            }
+        }
+        let keys_in_log: HashSet<String> = log.iter().map(|id| &sym.recs[id]).filter(|r| r.k == t).map(|r| r.key.clone()).collect();
+        if keys_in_log != seen {
+            fails.push(format!("{t}: keys {seen:?} listed, {keys_in_log:?} defined"));
+        }
+    }
+    fails
+}
+
+/// C10 on one program: lower <= get_used_qubits() <= upper for the qubits its own listing mentions
+pub fn used_failure(p: &Program) -> Option<(BTreeSet<String>, BTreeSet<String>)> {
+    let (model, lower, upper) = qubit_band(&p.to_instructions());
+    let used: BTreeSet<String> = p.get_used_qubits().iter().map(qcanon).collect();
+    if lower.is_subset(&used) && used.is_subset(&upper) {
+        None
+    } else {
+        Some((model, used))
+    }
+}
+
+/// the shape of known finding 16 on one program: the value comes from clone_without_body_instructions
+/// (taint) and the cache lacks exactly qubits that retained calibration definitions mention
+pub fn is_kf16_shape(p: &Program, tainted: bool) -> bool {
+    if !tainted {
+        return false;
+    }
+    let is = p.to_instructions();
+    let (model, _, upper) = qubit_band(&is);
+    let cals: Vec<Instruction> = is.iter().filter(|i| is_cal_kind(kind_of(i))).cloned().collect();
+    let (cal_q, _, _) = qubit_band(&cals);
+    let used: BTreeSet<String> = p.get_used_qubits().iter().map(qcanon).collect();
+    let missing: BTreeSet<String> = model.difference(&used).cloned().collect();
+    used.is_subset(&upper) && !missing.is_empty() && missing.is_subset(&cal_q)
+}
+
+fn frames_matched_by_reset(p: &Program) -> (BTreeSet<String>, BTreeSet<String>) {
+    // fixed probe frames are inserted through the public field (the cache is not involved)
+    let mut q = p.clone();
+    for n in 0..5u64 {
+        q.frames.insert(
+            FrameIdentifier { name: "probe".into(), qubits: vec![Qubit::Fixed(n)] },
+            Default::default(),
+        );
+    }
+    let reset = util::instr("RESET");
+    match DefaultHandler.matching_frames(&q, &reset) {
+        Some(m) => (
+            m.used.iter().map(|f| f.to_quil_or_debug()).collect(),
+            m.blocked.iter().map(|f| f.to_quil_or_debug()).collect(),
+        ),
+        None => (BTreeSet::new(), BTreeSet::new()),
+    }
+}
+
+fn listing_texts(p: &Program) -> Vec<String> {
+    p.to_instructions().iter().map(|i| i.to_quil_or_debug()).collect()
+}
+fn body_texts(p: &Program) -> Vec<String> {
+    p.body_instructions().map(|i| i.to_quil_or_debug()).collect()
+}
+fn used_of(p: &Program) -> BTreeSet<String> {
+    p.get_used_qubits().iter().map(qcanon).collect()
+}
+
+/// C11 on real operands a, b and a real result c (relational: nothing but the three programs is used)
+pub fn concat_failures(a: &Program, b: &Program, c: &Program, judge_used: bool) -> Vec<(String, Value, Value)> {
+    let mut fails = vec![];
+    let mut want_body = body_texts(a);
+    want_body.extend(body_texts(b));
+    if body_texts(c) != want_body {
+        fails.push(("body of the concatenation".to_string(), json!(want_body), json!(body_texts(c))));
+    }
+    let (ai, bi, ci) = (a.to_instructions(), b.to_instructions(), c.to_instructions());
+    for t in TABLES {
+        let of = |is: &[Instruction]| -> Vec<(String, String)> {
+            is.iter().filter(|i| kind_of(i) == t).map(|i| (key_of(i), i.to_quil_or_debug())).collect()
+        };
+        let (ta, tb, tc) = (of(&ai), of(&bi), of(&ci));
+        let mut want: HashMap<String, String> = ta.iter().cloned().collect();
+        want.extend(tb.iter().cloned());
+        let got: HashMap<String, String> = tc.iter().cloned().collect();
+        if got != want || tc.len() != got.len() {
+            fails.push((format!("{t} definitions of the concatenation"), json!(want), json!(tc)));
+        }
+    }
+    if judge_used {
+        let mut want: BTreeSet<String> = used_of(a);
+        want.extend(used_of(b));
+        if used_of(c) != want {
+            fails.push(("used qubits of the concatenation".to_string(), used_json(&want), used_json(&used_of(c))));
+        }
+    }
+    fails
+}
+
+/// equal as `==` says and equal in what C11 names: body, every definition by key and value, used qubits
+/// (the order of definitions within a kind is C08's observable, not C11's)
+fn same_program(x: &Program, y: &Program) -> bool {
+    let tables = |p: &Program| -> Vec<HashMap<String, String>> {
+        let is = p.to_instructions();
+        TABLES.iter().map(|t| is.iter().filter(|i| kind_of(i) == *t).map(|i| (key_of(i), i.to_quil_or_debug())).collect()).collect()
+    };
+    x == y && body_texts(x) == body_texts(y) && tables(x) == tables(y) && used_of(x) == used_of(y)
+}
+
+// ------------------------------------------------------------------------------ fresh-process texts
+
+struct ChildProc {
+    child: std::process::Child,
+    stdin: std::process::ChildStdin,
+    stdout: BufReader<std::process::ChildStdout>,
+    served: usize,
+}
+
+thread_local! {
+    static CHILD: RefCell<Option<ChildProc>> = const { RefCell::new(None) };
+}
+
+fn spawn_child(pid: &str) -> Option<ChildProc> {
+    let exe = std::env::current_exe().ok()?;
+    let mut child = std::process::Command::new(exe)
+        .arg("worker")
+        .arg(format!("{pid}.child"))
+        .stdin(std::process::Stdio::piped())
+        .stdout(std::process::Stdio::piped())
+        .stderr(std::process::Stdio::null())
+        .spawn()
+        .ok()?;
+    let stdin = child.stdin.take()?;
+    let stdout = BufReader::new(child.stdout.take()?);
+    Some(ChildProc { child, stdin, stdout, served: 0 })
+}
+
+/// Run the history in another process (its hash seeds differ from this one's; the process is replaced
+/// every 200 histories so that many seeds are sampled) and return the final texts of A and B.
+pub fn texts_in_fresh_process(pid: &str, history: &Value) -> Option<Vec<String>> {
+    CHILD.with(|c| {
+        let mut c = c.borrow_mut();
+        if c.as_ref().map(|p| p.served >= 200).unwrap_or(false) {
+            if let Some(mut old) = c.take() {
+                drop(old.stdin);
+                let _ = old.child.wait();
+            }
+        }
+        if c.is_none() {
+            *c = spawn_child(pid);
+        }
+        let p = c.as_mut()?;
+        p.served += 1;
+        let line = serde_json::to_string(history).ok()?;
+        let ok = p.stdin.write_all(line.as_bytes()).is_ok() && p.stdin.write_all(b"\n").is_ok() && p.stdin.flush().is_ok();
+        let mut resp = String::new();
+        if !ok || !matches!(p.stdout.read_line(&mut resp), Ok(k) if k > 0) {
+            if let Some(mut old) = c.take() {
+                let _ = old.child.kill();
+                let _ = old.child.wait();
+            }
+            return None;
+        }
+        let out: Outcome = serde_json::from_str(&resp).ok()?;
+        if !out.violations.is_empty() {
+            return None;
+        }
+        Some(out.divergences)
+    })
+}
+
+fn final_texts(history: &Value) -> Vec<String> {
+    let mut sym = Sym::default();
+    let mut o = Outcome::ok(false);
+    load_sym(history, &mut sym, &mut o);
+    let mut m = Machine::default();
+    for op in util::arr(history, "ops") {
+        if is_observation(op) {
+            continue;
+        }
+        m.apply(op, &mut sym, &mut o);
+    }
+    m.p.iter().map(|p| p.to_quil().unwrap_or_else(|e| format!("<to_quil failed: {e}>"))).collect()
+}
+
+fn load_sym(history: &Value, sym: &mut Sym, o: &mut Outcome) {
+    if let Some(list) = history.get("sym").and_then(|s| s.as_array()) {
+        for v in list {
+            sym.intern_abs(v, o);
+        }
+    }
+}
+
+fn is_observation(op: &Value) -> bool {
+    matches!(op["ev"].as_str(), Some("Obs") | Some("ObsConcat") | Some("ObsText") | Some("reset"))
+}
+
+// ------------------------------------------------------------------------------------------ replay
+
+fn pid_of(ctx: &Ctx) -> String {
+    ctx.mode.split('.').next().unwrap_or("C08").to_string()
+}
+
+/// history from a TLC case ({prof, ops}) or from a rejected recorded history ({"history":[events]})
+fn history_of(case: &Value) -> Value {
+    if let Some(h) = case.get("history").and_then(|h| h.as_array()) {
+        let sym = h.first().and_then(|r| r.get("sym")).cloned().unwrap_or(json!([]));
+        let ops: Vec<Value> = h.iter().filter(|e| e["ev"] != "reset").cloned().collect();
+        json!({"sym": sym, "ops": ops, "recorded": true})
+    } else {
+        case.clone()
+    }
+}
+
+fn nontrivial(pid: &str, ops: &[Value], sym: &Sym, m: &Machine) -> bool {
+    let adds: Vec<&SymRec> = ops
+        .iter()
+        .filter(|o| o["ev"] == "Add")
+        .filter_map(|o| match &o["i"] {
+            Value::String(s) => sym.recs.get(s),
+            v => v.get("id").and_then(|x| x.as_str()).and_then(|s| sym.recs.get(s)),
+        })
+        .collect();
+    let redefinition = {
+        let mut seen = HashSet::new();
+        ops.iter().zip(0..).any(|(o, _)| {
+            o["ev"] == "Add" && {
+                let r = match &o["i"] {
+                    Value::String(s) => sym.recs.get(s),
+                    v => v.get("id").and_then(|x| x.as_str()).and_then(|s| sym.recs.get(s)),
+                };
+                r.map(|r| r.k != "Body" && !seen.insert((util::s(o, "dst"), r.k, r.key.clone()))).unwrap_or(false)
+            }
+        })
+    };
+    match pid {
+        "C08" => {
+            redefinition
+                || m.p.iter().any(|p| {
+                    let is = p.to_instructions();
+                    TABLES.iter().any(|t| is.iter().filter(|i| kind_of(i) == *t).count() >= 2)
+                })
+        }
+        "C09" => (redefinition || adds.iter().any(|r| r.k == "Extern")) && adds.iter().any(|r| r.k == "Body"),
+        "C10" => redefinition || ops.iter().any(|o| !matches!(o["ev"].as_str(), Some("Add") | Some("Obs") | Some("ObsConcat") | Some("ObsText"))),
+        "C11" => ops.iter().any(|o| matches!(o["ev"].as_str(), Some("Concat") | Some("AddAssign"))) && {
+            // judged on the last concatenation's operands, recorded by replay in m (see below)
+            true
+        },
+        _ => false,
+    }
+}
+
+fn vsort(o: &mut Outcome) {
+    // unlisted violations first: the summary keys a case by its first violation
+    o.violations.sort_by_key(|v| v.finding.is_some());
+}
+
+pub fn replay(ctx: &Ctx, case: &Value) -> Outcome {
+    let pid = pid_of(ctx);
+    let history = history_of(case);
+    if ctx.mode.ends_with(".child") {
+        let mut o = Outcome::ok(false);
+        o.divergences = final_texts(&history);
+        return o;
+    }
+    if ctx.mode.ends_with(".canon") {
+        // development aid: canonical text / kind / key / qubits of instruction texts
+        let mut o = Outcome::ok(false);
+        for t in util::arr(case, "texts") {
+            let i = util::instr(t.as_str().unwrap_or(""));
+            let (q, _, _) = qubit_band(std::slice::from_ref(&i));
+            o.diverge(json!({"text": i.to_quil_or_debug(), "k": kind_of(&i), "key": key_of(&i), "qs": q}).to_string());
+        }
+        return o;
+    }
+    let mut o = Outcome::ok(false);
+    let mut sym = Sym::default();
+    load_sym(&history, &mut sym, &mut o);
+    let ops = util::arr(&history, "ops").clone();
+    let recorded = history.get("recorded").is_some();
+    let mut m = Machine::default();
+    let mut c11_nontrivial = false;
+    for (n, op) in ops.iter().enumerate() {
+        if is_observation(op) {
+            continue;
+        }
+        let before = m.clone();
+        let info = m.apply(op, &mut sym, &mut o);
+        let here = format!("step {} ({})", n + 1, info.ev);
+        if info.err.is_some() && info.ev != "Opaque" {
+            o.diverge(format!("{here}: the real operation failed: {:?}", info.err));
+            continue;
+        }
+        let dst = info.dst;
+        let real = project(&m.p[dst], &mut sym);
+        let eq_real = m.p[0] == m.p[1];
+        // what the model expects after this step (absent for recorded histories and opaque results)
+        let post = op.get("post").filter(|p| p.get("opaque").is_none() && !recorded);
+        let want_listing: Option<Vec<String>> =
+            post.map(|p| util::arr(p, "listing").iter().map(|x| x.as_str().unwrap_or("?").to_string()).collect());
+        let want_used: Option<BTreeSet<String>> = post.map(|p| util::arr(p, "used").iter().map(qcanon_of_abs).collect());
+        let listing_same = want_listing.as_ref().map(|w| *w == real.listing).unwrap_or(false);
+        let used_same = want_used.as_ref().map(|w| *w == real.used).unwrap_or(false);
+        let mut step_violated = false;
+
+        match pid.as_str() {
+            "C08" => {
+                if !listing_same {
+                    for f in order_failures(&real.listing, &m.log[dst], &sym) {
+                        step_violated = true;
+                        o.violate(
+                            Violation::new("order of definitions within a kind", json!(want_listing), json!(real.listing))
+                                .note(format!("{here}, register {}: {f}", RN[dst])),
+                        );
+                    }
+                }
+            }
+            "C09" => {
+                if real.into != real.listing {
+                    step_violated = true;
+                    o.violate(
+                        Violation::new("into_instructions vs to_instructions", json!(real.listing), json!(real.into))
+                            .note(format!("{here}, register {}", RN[dst])),
+                    );
+                }
+                let rebuilt = Program::from_instructions(m.p[dst].to_instructions());
+                let excluded = m.taint[dst] || m.pull[dst];
+                if !excluded && rebuilt != m.p[dst] {
+                    step_violated = true;
+                    o.violate(
+                        Violation::new("from_instructions(to_instructions(p)) == p", json!(true), json!(false))
+                            .note(format!("{here}, register {}: listing {:?}", RN[dst], real.listing)),
+                    );
+                }
+                if rebuilt.to_quil().ok() != real.text {
+                    step_violated = true;
+                    o.violate(
+                        Violation::new("serialization of the rebuilt program", json!(real.text), json!(rebuilt.to_quil().ok()))
+                            .note(format!("{here}, register {}", RN[dst])),
+                    );
+                }
+                if !listing_same {
+                    for f in body_and_last_value_failures(&real.listing, &m.log[dst], &sym) {
+                        step_violated = true;
+                        o.violate(
+                            Violation::new("body order / last value of a keyed definition", json!(want_listing), json!(real.listing))
+                                .note(format!("{here}, register {}: {f}", RN[dst])),
+                        );
+                    }
+                }
+            }
+            "C10" => {
+                if !m.pull[dst] {
+                    if let Some((model, used)) = used_failure(&m.p[dst]) {
+                        step_violated = true;
+                        let mut v = Violation::new("get_used_qubits", used_json(&model), used_json(&used))
+                            .note(format!("{here}, register {}: listing {:?}", RN[dst], real.listing));
+                        if is_kf16_shape(&m.p[dst], m.taint[dst]) {
+                            v = v.finding(KF16);
+                        }
+                        o.violate(v);
+                    }
+                }
+                if !m.pull[0] && !m.pull[1] && listing_texts(&m.p[0]) == listing_texts(&m.p[1]) {
+                    let kf = (is_kf16_shape(&m.p[0], m.taint[0]) || is_kf16_shape(&m.p[1], m.taint[1]))
+                        && used_of(&m.p[0]) != used_of(&m.p[1]);
+                    if !eq_real {
+                        step_violated = true;
+                        let mut v = Violation::new("== of two programs with the same listing", json!(true), json!(false))
+                            .note(format!("{here}: listing {:?}, used {:?} vs {:?}", real.listing, used_of(&m.p[0]), used_of(&m.p[1])));
+                        if kf {
+                            v = v.finding(KF16);
+                        }
+                        o.violate(v);
+                    }
+                    let (fa, fb) = (frames_matched_by_reset(&m.p[0]), frames_matched_by_reset(&m.p[1]));
+                    if fa != fb {
+                        step_violated = true;
+                        let mut v = Violation::new("matching_frames of RESET on two programs with the same listing", json!(fa), json!(fb))
+                            .note(format!("{here}: listing {:?}", real.listing));
+                        if kf {
+                            v = v.finding(KF16);
+                        }
+                        o.violate(v);
+                    }
+                }
+            }
+            "C11" => {
+                if let Some((a, b)) = &info.concat {
+                    if !a.to_instructions().is_empty() && !b.to_instructions().is_empty() {
+                        let (ba, bb) = (a.body_instructions().count(), b.body_instructions().count());
+                        let ka: HashSet<(&str, String)> = a.to_instructions().iter().filter(|i| kind_of(i) != "Body").map(|i| (kind_of(i), key_of(i))).collect();
+                        let shares = b.to_instructions().iter().any(|i| ka.contains(&(kind_of(i), key_of(i))));
+                        c11_nontrivial |= shares || (ba > 0 && bb > 0);
+                    }
+                    let c = &m.p[dst];
+                    let note = format!("{here}: A = {:?}, B = {:?}", listing_texts(a), listing_texts(b));
+                    for (what, want, got) in concat_failures(a, b, c, !info.pull_apart) {
+                        step_violated = true;
+                        o.violate(Violation::new(&what, want, got).note(note.clone()));
+                    }
+                    // `+` and `+=` agree
+                    let plus = a.clone() + b.clone();
+                    let mut assign = a.clone();
+                    assign += b.clone();
+                    if !same_program(&plus, &assign) || !same_program(&plus, c) {
+                        step_violated = true;
+                        o.violate(Violation::new("A + B vs A += B", json!(listing_texts(&plus)), json!(listing_texts(&assign))).note(note.clone()));
+                    }
+                    // concatenation with an empty program is an identity
+                    for x in [a, b] {
+                        if !same_program(&(x.clone() + Program::new()), x) || !same_program(&(Program::new() + x.clone()), x) {
+                            step_violated = true;
+                            o.violate(
+                                Violation::new("concatenation with an empty program", json!(listing_texts(x)),
+                                               json!([listing_texts(&(x.clone() + Program::new())), listing_texts(&(Program::new() + x.clone()))]))
+                                    .note(note.clone()),
+                            );
+                        }
+                    }
+                }
+            }
+            _ => {}
+        }
+
+        // anything else the model knows better is informational
+        if let Some(p) = post {
+            if !step_violated {
+                if !listing_same {
+                    o.diverge(format!("{here}: listing of {} is {:?}, model {:?}", RN[dst], real.listing, want_listing));
+                }
+                if !used_same && !m.taint[dst] {
+                    o.diverge(format!("{here}: used qubits of {} are {:?}, model {:?}", RN[dst], real.used, want_used));
+                }
+                if p["len"].as_u64() != Some(real.len as u64) {
+                    o.diverge(format!("{here}: len of {} is {}, model {}", RN[dst], real.len, p["len"]));
+                }
+                if let Some(e) = p.get("eq").and_then(|e| e.get("some")).and_then(|e| e.as_bool()) {
+                    if e != eq_real && !m.taint[0] && !m.taint[1] {
+                        o.diverge(format!("{here}: A == B is {eq_real}, model {e}"));
+                    }
+                }
+                if let (Some(w), Some(t)) = (&want_listing, &real.text) {
+                    if listing_same {
+                        let joined: String = w.iter().map(|id| format!("{}\n", sym.recs[id].canon)).collect();
+                        if joined != *t {
+                            o.diverge(format!("{here}: to_quil of {} is not its listing joined by newlines", RN[dst]));
+                        }
+                    }
+                }
+            }
+        }
+        let _ = before;
+    }
+
+    // C08: the same history again in this process and in a fresh one: byte-identical text
+    if pid == "C08" {
+        let first: Vec<String> = m.p.iter().map(|p| p.to_quil().unwrap_or_default()).collect();
+        let second = final_texts(&history);
+        let third = texts_in_fresh_process("C08", &history);
+        if first != second {
+            o.violate(Violation::new("to_quil of the same history built twice in one process", json!(first), json!(second)));
+        }
+        match third {
+            Some(t) if t == first => {}
+            Some(t) => o.violate(Violation::new("to_quil of the same history built in another process", json!(first), json!(t))),
+            None => o.diverge("fresh-process run not available"),
+        }
+        o.sub_evaluations = 3;
+    }
+    o.nontrivial = if pid == "C11" { c11_nontrivial } else { nontrivial(&pid, &ops, &sym, &m) };
+    vsort(&mut o);
+    o
+}
+
+// ------------------------------------------------------------------------------------------- drive
+
+struct Gen {
+    decl: Vec<String>,
+    frame: Vec<String>,
+    wave: Vec<String>,
+    cal: Vec<String>,
+    mcal: Vec<String>,
+    gate: Vec<String>,
+    circ: Vec<String>,
+    ext: Vec<String>,
+    body: Vec<String>,
+}
+
+fn generator(pid: &str) -> Gen {
+    let c10 = pid == "C10";
+    let mut decl = vec![];
+    for n in ["ro", "theta", "acc", "loopn"] {
+        for t in ["BIT", "REAL[2]", "INTEGER[3]"] {
+            decl.push(format!("DECLARE {n} {t}"));
+        }
+    }
+    decl.push("DECLARE shared BIT[8] SHARING acc OFFSET 1 BIT".into());
+    let mut frame = vec![];
+    if !c10 {
+        // DEFFRAME is outside C10's alphabet (DESIGN §6 C10)
+        for q in ["0", "1", "2", "0 1", "1 2"] {
+            for n in ["rf", "ro"] {
+                for a in ["HARDWARE-OBJECT: \"h1\"", "HARDWARE-OBJECT: \"h2\"\n    INITIAL-FREQUENCY: 1e6"] {
+                    frame.push(format!("DEFFRAME {q} \"{n}\":\n    {a}"));
+                }
+            }
+        }
+    }
+    let mut wave = vec![];
+    for n in ["wa", "wb", "wc"] {
+        for b in ["1, 2", "0.5, 0.5, 0.5"] {
+            wave.push(format!("DEFWAVEFORM {n}:\n    {b}"));
+        }
+    }
+    wave.push("DEFWAVEFORM wp(%a):\n    %a, 2*%a".into());
+    let mut cal = vec![];
+    let heads: &[&str] = if c10 { &["X 0", "X 1", "RX(pi/2) 0", "CZ 0 1", "DAGGER X 0"] } else { &["X 0", "X 1", "X q", "RX(pi/2) 0", "RX(%t) 0", "CZ 0 1", "DAGGER X 0"] };
+    let bodies: &[&str] = if c10 {
+        &["Y 0", "Y 2", "Y 1\n    CNOT 3 4", "NOP", "DELAY 0 1.0", "FENCE 2 3", "MEASURE 4 ro[0]"]
+    } else {
+        &["Y 0", "Y 2", "Y 1\n    CNOT 3 4", "NOP", "DELAY 0 1.0", "PULSE 0 \"rf\" flat(duration: 1.0, iq: 1.0)", "SHIFT-PHASE 0 \"rf\" 0.5"]
+    };
+    for h in heads {
+        for b in bodies {
+            cal.push(format!("DEFCAL {h}:\n    {b}"));
+        }
+    }
+    let mut mcal = vec![];
+    let mheads: &[&str] = if c10 { &["MEASURE 0 addr", "MEASURE 1 addr", "MEASURE 0"] } else { &["MEASURE 0 addr", "MEASURE 1 addr", "MEASURE q addr", "MEASURE 0"] };
+    for h in mheads {
+        for b in ["X 0", "X 3", "NOP"] {
+            mcal.push(format!("DEFCAL {h}:\n    {b}"));
+        }
+    }
+    let mut gate = vec![];
+    for n in ["G1", "G2"] {
+        gate.push(format!("DEFGATE {n} AS MATRIX:\n    1, 0\n    0, 1"));
+        gate.push(format!("DEFGATE {n} AS MATRIX:\n    0, 1\n    1, 0"));
+    }
+    gate.push("DEFGATE P1 AS PERMUTATION:\n    1, 0".into());
+    gate.push("DEFGATE SQ a AS SEQUENCE:\n    X a\n    Y a".into());
+    gate.push("DEFGATE SQ a AS SEQUENCE:\n    Z a".into());
+    gate.push("DEFGATE SR(%t) a b AS SEQUENCE:\n    RX(%t) a\n    SQ b".into());
+    let mut circ = vec![];
+    for n in ["BELL", "C2"] {
+        circ.push(format!("DEFCIRCUIT {n} a b:\n    H a\n    CNOT a b"));
+        circ.push(format!("DEFCIRCUIT {n} a b:\n    CNOT b a"));
+    }
+    let mut ext = vec![];
+    for n in ["foo", "bar", "baz"] {
+        for s in ["\"INTEGER (x : INTEGER)\"", "\"(x : mut REAL[3])\""] {
+            ext.push(format!("PRAGMA EXTERN {n} {s}"));
+        }
+    }
+    let mut body: Vec<String> = vec![
+        "X 0", "X 1", "Y 2", "CNOT 0 1", "CNOT 3 4", "RX(pi/2) 0", "RX(pi/2) 2", "CZ 0 1", "DAGGER X 0", "SQ 1", "SR(0.5) 2 3",
+        "MEASURE 0 ro[0]", "MEASURE 1 ro[0]", "MEASURE 4", "RESET", "RESET 3", "DELAY 0 1.0", "DELAY 2 3 0.5", "FENCE 1 2",
+        "FENCE", "NOP", "WAIT", "HALT", "MOVE acc[0] 1", "ADD acc[0] 2", "LABEL @a", "JUMP @a", "JUMP-WHEN @a ro[0]",
+        "PRAGMA note", "PRAGMA other 1 \"data\"", "CALL foo acc[0]", "G1 0", "BELL 0 1",
+    ]
+    .into_iter()
+    .map(String::from)
+    .collect();
+    if !c10 {
+        // frame operands are outside C10's alphabet
+        for s in [
+            "PULSE 0 \"rf\" flat(duration: 1.0, iq: 1.0)", "PULSE 1 \"rf\" wa", "NONBLOCKING PULSE 0 1 \"rf\" wb",
+            "CAPTURE 0 \"ro\" flat(duration: 1.0, iq: 1.0) ro[0]", "RAW-CAPTURE 1 \"ro\" 1.0 theta[0]",
+            "SHIFT-PHASE 0 \"rf\" 0.5", "SET-FREQUENCY 1 \"rf\" 1e6", "SWAP-PHASES 0 \"rf\" 1 \"rf\"",
+        ] {
+            body.push(s.into());
+        }
+    } else {
+        for s in ["PULSE 0 \"rf\" flat(duration: 1.0, iq: 1.0)", "CAPTURE 2 \"ro\" flat(duration: 1.0, iq: 1.0) ro[0]", "RAW-CAPTURE 1 \"ro\" 1.0 theta[0]"] {
+            body.push(s.into());
+        }
+    }
+    Gen { decl, frame, wave, cal, mcal, gate, circ, ext, body }
+}
+
+impl Gen {
+    fn pick(&self, r: &mut impl Rng, body_weight: u32) -> String {
+        let tables: Vec<&Vec<String>> =
+            [&self.decl, &self.frame, &self.wave, &self.cal, &self.mcal, &self.gate, &self.circ, &self.ext].into_iter().filter(|t| !t.is_empty()).collect();
+        if r.gen_range(0..100) < body_weight {
+            self.body.choose(r).unwrap().clone()
+        } else {
+            tables.choose(r).unwrap().choose(r).unwrap().clone()
+        }
+    }
+}
+
+fn proj_json(p: &Proj) -> Value {
+    json!({"listing": p.listing, "used": used_json(&p.used), "len": p.len})
+}
+
+struct Recorder {
+    sym: Sym,
+    m: Machine,
+    events: Vec<Value>,
+    kf_hits: u64,
+    ops: Vec<Value>,
+}
+
+impl Recorder {
+    fn new() -> Self {
+        Recorder { sym: Sym::default(), m: Machine::default(), events: vec![], kf_hits: 0, ops: vec![] }
+    }
+
+    fn sid(&mut self, text: &str) -> String {
+        self.sym.intern_instr(None, util::instr(text))
+    }
+
+    /// run one mutation on the real registers and record it with its projected post-state
+    fn mutate(&mut self, mut op: Value) -> bool {
+        let mut scratch = Outcome::ok(false);
+        let before = self.m.clone();
+        let info = self.m.apply(&op, &mut self.sym, &mut scratch);
+        if info.err.is_some() {
+            self.m = before;
+            return false;
+        }
+        let dst = info.dst;
+        let real = project(&self.m.p[dst], &mut self.sym);
+        let mut post = proj_json(&real);
+        post["eq"] = json!(self.m.p[0] == self.m.p[1]);
+        if op["ev"] == "Supplied" {
+            op["listing"] = json!(real.listing);
+        }
+        if op["ev"] == "Resolve" {
+            let body: Vec<Instruction> = self.m.p[dst].body_instructions().cloned().collect();
+            op["body"] = json!(self.sym.ids_of(&body));
+        }
+        // known finding 16: the harness recognises the exact shape and says so in the record, the trace
+        // specification then follows the as-built deviation for this step only
+        let fresh_taint = matches!(op["ev"].as_str(), Some("CloneWithoutBody") | Some("Supplied")) && self.m.taint[dst];
+        if fresh_taint && is_kf16_shape(&self.m.p[dst], true) {
+            op["kf"] = json!(KF16);
+            self.kf_hits += 1;
+        }
+        op["post"] = post;
+        self.ops.push(op.clone());
+        self.events.push(op);
+        if let Some((a, b)) = &info.concat {
+            let c = self.m.p[dst].clone();
+            let (pa, pb, pc) = (project(a, &mut self.sym), project(b, &mut self.sym), project(&c, &mut self.sym));
+            let plus = a.clone() + b.clone();
+            let mut assign = a.clone();
+            assign += b.clone();
+            let ident = |x: &Program| same_program(&(x.clone() + Program::new()), x) && same_program(&(Program::new() + x.clone()), x);
+            self.events.push(json!({"ev": "ObsConcat", "dst": RN[dst], "a": proj_json(&pa), "b": proj_json(&pb), "c": proj_json(&pc),
+                "plus_is_assign": same_program(&plus, &assign) && same_program(&plus, &c),
+                "identity": ident(a) && ident(b)}));
+        }
+        true
+    }
+
+    /// The public observations of both registers.  `full` additionally records the serialized texts (ObsText
+    /// events, compared with the model's ToQuil as binding only: the exact layout of the text is not part of
+    /// any property; C08 judges that the definitions appear *in the text* in listing order, `text_ordered`).
+    fn observe(&mut self, det: Option<bool>, full: bool) {
+        let mut ev = json!({"ev": "Obs", "eq": self.m.p[0] == self.m.p[1]});
+        let mut frames = vec![];
+        for r in 0..2 {
+            let p = self.m.p[r].clone();
+            let real = project(&p, &mut self.sym);
+            let rebuilt = Program::from_instructions(p.to_instructions());
+            frames.push(frames_matched_by_reset(&p));
+            let text = real.text.clone().unwrap_or_else(|| "<unprintable>".into());
+            let mut at = 0usize;
+            let mut ordered = real.text.is_some();
+            for i in p.to_instructions() {
+                match text[at..].find(&i.to_quil_or_debug()) {
+                    Some(k) => at += k + 1,
+                    None => {
+                        ordered = false;
+                        break;
+                    }
+                }
+            }
+            if full {
+                self.events.push(json!({"ev": "ObsText", "r": RN[r], "text": text}));
+            }
+            ev[RN[r]] = json!({"listing": real.listing, "into": real.into, "used": used_json(&real.used), "len": real.len,
+                "text_ordered": ordered,
+                "rebuilt_eq": rebuilt == p, "rebuilt_text": rebuilt.to_quil().ok() == real.text});
+        }
+        ev["reset_frames_same"] = json!(frames[0] == frames[1]);
+        if let Some(d) = det {
+            ev["det"] = json!(d);
+        }
+        self.events.push(ev);
+    }
+}
+
+pub fn drive(ctx: &Ctx) -> Summary {
+    let pid = pid_of(ctx);
+    let n = ctx.arg_u64("n", 100);
+    let max_len = ctx.arg_u64("len", 40) as usize;
+    let path = ctx.arg_str("out").expect("--out");
+    let mut out = std::io::BufWriter::new(std::fs::File::create(path).expect("create trace"));
+    let stream = match pid.as_str() {
+        "C08" => 8,
+        "C09" => 9,
+        "C10" => 10,
+        _ => 11,
+    };
+    let mut rng = util::rng(ctx.seed, stream);
+    let gen = generator(&pid);
+    let mut sum = Summary::default();
+    for h in 0..n {
+        let mut rec = Recorder::new();
+        let len = if h < 3 { h as usize + 1 } else { rng.gen_range(max_len / 2..=max_len) };
+        match pid.as_str() {
+            "C08" | "C09" => {
+                // adds (every kind several times: the alphabet has ~10 texts per kind over 2-4 keys), bulk
+                // adds, and for C08 a concatenation of the two registers at the end
+                for _ in 0..len {
+                    let r = if pid == "C08" && rng.gen_bool(0.35) { "B" } else { "A" };
+                    match rng.gen_range(0..100) {
+                        0..=84 => {
+                            let id = rec.sid(&gen.pick(&mut rng, 25));
+                            rec.mutate(json!({"ev": "Add", "dst": r, "i": id}));
+                        }
+                        85..=94 => {
+                            let k = rng.gen_range(0..4);
+                            let ids: Vec<String> = (0..k).map(|_| rec.sid(&gen.pick(&mut rng, 25))).collect();
+                            rec.mutate(json!({"ev": "AddMany", "dst": r, "is": ids}));
+                        }
+                        _ => {
+                            // rebuild from the own listing followed by more adds
+                            let ids = project(&rec.m.p[ri(r)], &mut rec.sym).listing;
+                            rec.mutate(json!({"ev": "FromInstructions", "dst": r, "is": ids}));
+                        }
+                    }
+                    if rng.gen_range(0..100) < 8 {
+                        rec.observe(None, true);
+                    }
+                }
+                if pid == "C08" {
+                    match rng.gen_range(0..3) {
+                        0 => {
+                            rec.mutate(json!({"ev": "Concat", "dst": "A", "a": "A", "b": "B"}));
+                        }
+                        1 => {
+                            rec.mutate(json!({"ev": "Concat", "dst": "A", "a": "B", "b": "A"}));
+                        }
+                        _ => {
+                            rec.mutate(json!({"ev": "AddAssign", "dst": "A", "b": "B"}));
+                        }
+                    }
+                }
+            }
+            "C11" => {
+                let la = rng.gen_range(0..=len / 2);
+                let lb = rng.gen_range(0..=len / 2);
+                for _ in 0..la {
+                    let id = rec.sid(&gen.pick(&mut rng, 30));
+                    rec.mutate(json!({"ev": "Add", "dst": "A", "i": id}));
+                }
+                for _ in 0..lb {
+                    let id = rec.sid(&gen.pick(&mut rng, 30));
+                    rec.mutate(json!({"ev": "Add", "dst": "B", "i": id}));
+                }
+                for _ in 0..rng.gen_range(1..=3) {
+                    let (x, y) = if rng.gen_bool(0.5) { ("A", "B") } else { ("B", "A") };
+                    if rng.gen_bool(0.5) {
+                        rec.mutate(json!({"ev": "Concat", "dst": x, "a": x, "b": y}));
+                    } else {
+                        rec.mutate(json!({"ev": "AddAssign", "dst": x, "b": y}));
+                    }
+                    let id = rec.sid(&gen.pick(&mut rng, 30));
+                    rec.mutate(json!({"ev": "Add", "dst": y, "i": id}));
+                }
+            }
+            _ => {
+                // C10: every public operation, observation of the cache and of == after every step
+                for _ in 0..len {
+                    let (x, y) = if rng.gen_bool(0.5) { ("A", "B") } else { ("B", "A") };
+                    let ok = match rng.gen_range(0..100) {
+                        0..=54 => {
+                            let id = rec.sid(&gen.pick(&mut rng, 40));
+                            rec.mutate(json!({"ev": "Add", "dst": x, "i": id}))
+                        }
+                        55..=59 => rec.mutate(json!({"ev": "Concat", "dst": x, "a": x, "b": y})),
+                        60..=64 => rec.mutate(json!({"ev": "AddAssign", "dst": x, "b": y})),
+                        65..=68 => rec.mutate(json!({"ev": "CloneWithoutBody", "dst": x, "a": y})),
+                        69..=71 => rec.mutate(json!({"ev": "Clone", "dst": x, "a": y})),
+                        72..=75 => rec.mutate(json!({"ev": "Resolve", "dst": x})),
+                        76..=79 => {
+                            let ids = project(&rec.m.p[ri(y)], &mut rec.sym).listing;
+                            rec.mutate(json!({"ev": "FromInstructions", "dst": x, "is": ids}))
+                        }
+                        80..=83 => {
+                            let drop: Vec<&str> = match rng.gen_range(0..3) {
+                                0 => vec!["Body"],
+                                1 => vec!["DefCal", "DefCalMeasure"],
+                                _ => vec!["Declare", "DefGate"],
+                            };
+                            rec.mutate(json!({"ev": "Filter", "dst": x, "a": y, "drop": drop}))
+                        }
+                        84..=87 => rec.mutate(json!({"ev": "Supplied", "name": "ExpandCalibrations", "dst": x, "a": y})),
+                        88..=90 => rec.mutate(json!({"ev": "Supplied", "name": "Simplify", "dst": x, "a": y})),
+                        91..=93 => match rng.gen_range(0..4u64) {
+                            0 => rec.mutate(json!({"ev": "CloneWithoutBody", "dst": x, "a": y, "via": "wrap_in_loop"})),
+                            1 => rec.mutate(json!({"ev": "Clone", "dst": x, "a": y, "via": "wrap_in_loop"})),
+                            k => rec.mutate(json!({"ev": "Supplied", "name": "WrapInLoop", "n": k, "dst": x, "a": y})),
+                        },
+                        94..=96 => rec.mutate(json!({"ev": "Supplied", "name": "ExpandDefGateSequences", "dst": x, "a": y})),
+                        97 => rec.mutate(json!({"ev": "New", "dst": x})),
+                        _ => {
+                            let k = rng.gen_range(0..4);
+                            let ids: Vec<String> = (0..k).map(|_| rec.sid(&gen.pick(&mut rng, 40))).collect();
+                            rec.mutate(json!({"ev": "AddMany", "dst": x, "is": ids}))
+                        }
+                    };
+                    if ok {
+                        rec.observe(None, false);
+                    }
+                }
+            }
+        }
+        // final observation; for C08 with the determinism verdict of a second build here and one in a fresh process
+        let det = if pid == "C08" {
+            let history = json!({"sym": rec.sym.sym_json(), "ops": rec.ops});
+            let first: Vec<String> = rec.m.p.iter().map(|p| p.to_quil().unwrap_or_default()).collect();
+            let second = final_texts(&history);
+            let third = texts_in_fresh_process("C08", &history);
+            Some(first == second && third.as_ref() == Some(&first))
+        } else {
+            None
+        };
+        rec.observe(det, pid != "C10");
+        util::emit(&mut out, &json!({"ev": "reset", "sym": rec.sym.sym_json()}));
+        for e in &rec.events {
+            util::emit(&mut out, e);
+        }
+        let mut o = Outcome::ok(nontrivial(&pid, &rec.ops, &rec.sym, &rec.m));
+        o.count_n("events", rec.events.len() as u64 + 1);
+        if rec.kf_hits > 0 && pid == "C10" {
+            o.count_n("kf16_steps", rec.kf_hits);
+            o.violate(
+                Violation::new("get_used_qubits", json!("qubits of the retained calibrations"), json!("missing"))
+                    .note("recorded history goes through clone_without_body_instructions with calibrations that mention qubits")
+                    .finding(KF16),
+            );
+        }
+        sum.absorb(&json!({"ops": rec.ops.iter().take(12).collect::<Vec<_>>()}), &o, true);
+    }
+    sum
 }
